@@ -10,12 +10,28 @@
         the server sent a PAP Authenticate-Ack on a session whose record carries creation index k,
         and, when a RADIUS client is configured, RADIUS answered Access-Accept during that step.
 
+   clauses 0 and 2 use the strict reading "the session's LATEST PAP exchange was accepted": a later
+   Authenticate-Nak (RADIUS reject, error, timeout) on the same session cancels the earlier accept.
+   Clause 1 keeps the literal reading (the record keeps its ClientIP value after a later reject, as coded;
+   the address was assigned after an accept).
    clause 0  established-after-auth : a session shown Established has an accept event now or earlier
    clause 1  clientip-after-auth    : a session with a client address has an accept event now or earlier
    clause 2  ipcp-ack-after-auth    : every IPCP Configure-Ack sent is on a session with an accept event
                                       now or earlier
    clause 3  mac-ownership          : every session record present before a frame whose owner MAC differs
-                                      from the frame's source MAC is present, identical, afterwards *)
+                                      from the frame's source MAC is present, identical, afterwards
+                                      (whatever the frame is: discovery or session stage; the complete
+                                      record: state, flags, address, identifier, counters, Host-Uniq,
+                                      Service-Name, user name)
+   clause 4  emitted-to-owner       : every frame the server sends that names a session (a PADS, any
+                                      discovery frame with a non-zero session id, every session-stage
+                                      frame) is addressed to the MAC that owns a session with that id, in
+                                      the table after the frame or in the table before it (a session's
+                                      exchange is never advanced towards, or handed to, another station)
+   clause 5  verdict-on-requester   : a PAP Authenticate-Ack / Authenticate-Nak is only sent on the session id
+                                      named by the session-stage frame being handled ("that same session's
+                                      PAP exchange": the accept event of a session is the answer to a
+                                      request made on that session) *)
 From Coq Require Import NArith List Bool.
 From Verif Require Import Base.Word Model.PPPoESrv.
 Import ListNotations.
@@ -36,8 +52,18 @@ Definition accepts (c : config) (r : out) : list N :=
 
 Definition mem (k : N) (l : list N) : bool := existsb (N.eqb k) l.
 
-Record sstate := { m_prev : list sess; m_acc : list N }.
-Definition sinit : sstate := {| m_prev := []; m_acc := [] |}.
+(* creation indexes of the sessions whose PAP exchange got a verdict in this step: an Authenticate-Ack or
+   an Authenticate-Nak was sent on them *)
+Definition pap_verdict_sent (fr : list eframe) (sid : N) : bool := sent_on ProtoPAP 2 fr sid || sent_on ProtoPAP 3 fr sid.
+Definition verdicts (r : out) : list N :=
+  map s_inst (filter (fun s => pap_verdict_sent (o_frames r) (s_id s)) (o_sessions r)).
+(* sessions whose LATEST PAP verdict is an accept: an accept event puts the session in, any other verdict
+   (Authenticate-Nak after a RADIUS reject / error / timeout, or an Ack that RADIUS did not back) takes it out *)
+Definition next_cur (c : config) (cur : list N) (r : out) : list N :=
+  accepts c r ++ filter (fun k => negb (mem k (verdicts r))) cur.
+
+Record sstate := { m_prev : list sess; m_acc : list N; m_cur : list N }.
+Definition sinit : sstate := {| m_prev := []; m_acc := []; m_cur := [] |}.
 
 Definition established_ok (acc : list N) (r : out) : bool :=
   forallb (fun s => negb (s_state s =? StEstablished) || mem (s_inst s) acc) (o_sessions r).
@@ -51,13 +77,42 @@ Definition ipcp_ack_ok (acc : list N) (r : out) : bool :=
 Definition ownership_ok (prev : list sess) (src : N) (r : out) : bool :=
   forallb (fun s => (s_mac s =? src) || existsb (sess_eqb s) (o_sessions r)) prev.
 
+(* (destination MAC, session id) of an emitted frame that names a session *)
+Definition ef_sid (f : eframe) : option (N * N) :=
+  match f with
+  | EDisc d _ sid _ => if sid =? 0 then None else Some (d, sid)
+  | ESess d sid _ _ => Some (d, sid)
+  end.
+Definition emitted_ok (prev : list sess) (r : out) : bool :=
+  forallb (fun f => match ef_sid f with
+                    | None => true
+                    | Some (d, sid) => existsb (fun s => (s_id s =? sid) && (s_mac s =? d)) (o_sessions r ++ prev)
+                    end) (o_frames r).
+
+(* clause 5: a PAP verdict (Authenticate-Ack / Authenticate-Nak) is only sent on the session id named by the
+   session-stage frame being handled - the verdict of a PAP exchange goes to the session that asked *)
+Definition op_sid (o : op) : option N := match op_frame o with FSess _ sid _ _ => Some sid | _ => None end.
+Definition ef_pap_verdict (f : eframe) : option N :=
+  match f with
+  | ESess _ sid p (c :: _) => if (p =? ProtoPAP) && ((c =? 2) || (c =? 3)) then Some sid else None
+  | _ => None
+  end.
+Definition verdict_ok (o : op) (r : out) : bool :=
+  forallb (fun f => match ef_pap_verdict f with
+                    | None => true
+                    | Some sid => match op_sid o with Some x => x =? sid | None => false end
+                    end) (o_frames r).
+
 Definition accept (c : config) (ms : sstate) (o : op) (r : out) : sstate + N :=
   let acc := accepts c r ++ m_acc ms in
-  if negb (established_ok acc r) then inr 0
+  let cur := next_cur c (m_cur ms) r in
+  if negb (established_ok cur r) then inr 0
   else if negb (clientip_ok acc r) then inr 1
-  else if negb (ipcp_ack_ok acc r) then inr 2
+  else if negb (ipcp_ack_ok cur r) then inr 2
   else if negb (ownership_ok (m_prev ms) (op_src o) r) then inr 3
-  else inl {| m_prev := o_sessions r; m_acc := acc |}.
+  else if negb (emitted_ok (m_prev ms) r) then inr 4
+  else if negb (verdict_ok o r) then inr 5
+  else inl {| m_prev := o_sessions r; m_acc := acc; m_cur := cur |}.
 
 (* ---- the property stated directly on runs of the Model (used by Props/C04.v) ---- *)
 (* state after a history of frames; output of one more frame; all outputs of a history.
@@ -80,6 +135,11 @@ Definition outs := outs_g gates_on.
 (* session (creation index) k had an accept event in one of these step outputs *)
 Definition accepted_in (c : config) (rs : list out) (k : N) : Prop := exists r, In r rs /\ In k (accepts c r).
 
+(* session k had an accept event in one of these step outputs and no other PAP verdict since: its latest
+   PAP exchange was accepted *)
+Definition accepted_latest (c : config) (rs : list out) (k : N) : Prop :=
+  exists pre r post, rs = pre ++ r :: post /\ In k (accepts c r) /\ forall r', In r' post -> ~ In k (verdicts r').
+
 (* the clauses, for a choice of repairs *)
 Definition established_after_auth (g : gates) : Prop := forall c ops o s,
   In s (o_sessions (out_at_g g c ops o)) -> s_state s = StEstablished ->
@@ -88,12 +148,28 @@ Definition ipcp_ack_after_auth (g : gates) : Prop := forall c ops o f sid,
   In f (o_frames (out_at_g g c ops o)) -> ef_is ProtoIPCP 2 f = Some sid ->
   exists s, In s (o_sessions (out_at_g g c ops o)) /\ s_id s = sid /\
             accepted_in c (outs_g g c (ops ++ [o])) (s_inst s).
+(* the strict reading: ... only while the session's LATEST PAP exchange is an accepted one *)
+Definition established_after_latest_auth (g : gates) : Prop := forall c ops o s,
+  In s (o_sessions (out_at_g g c ops o)) -> s_state s = StEstablished ->
+  accepted_latest c (outs_g g c (ops ++ [o])) (s_inst s).
+Definition ipcp_ack_after_latest_auth (g : gates) : Prop := forall c ops o f sid,
+  In f (o_frames (out_at_g g c ops o)) -> ef_is ProtoIPCP 2 f = Some sid ->
+  exists s, In s (o_sessions (out_at_g g c ops o)) /\ s_id s = sid /\
+            accepted_latest c (outs_g g c (ops ++ [o])) (s_inst s).
 Definition clientip_after_auth (g : gates) : Prop := forall c ops o s,
   In s (o_sessions (out_at_g g c ops o)) -> s_ip s <> None ->
   accepted_in c (outs_g g c (ops ++ [o])) (s_inst s).
 Definition mac_ownership (g : gates) : Prop := forall c ops o s,
   In s (st_sessions (exec_g g c ops)) -> s_mac s <> op_src o ->
   In s (st_sessions (exec_g g c (ops ++ [o]))).
+(* every frame sent while handling o that names a session goes to the sender of o, and that station owns
+   a session with that id (after o: a PADS; or before o: the session-stage replies) *)
+Definition emitted_to_owner (g : gates) : Prop := forall c ops o f d sid,
+  In f (o_frames (out_at_g g c ops o)) -> ef_sid f = Some (d, sid) ->
+  d = op_src o /\
+  exists s, In s (st_sessions (exec_g g c (ops ++ [o])) ++ st_sessions (exec_g g c ops)) /\ s_id s = sid /\ s_mac s = d.
+Definition verdict_on_requester (g : gates) : Prop := forall c ops o f sid,
+  In f (o_frames (out_at_g g c ops o)) -> ef_pap_verdict f = Some sid -> op_sid o = Some sid.
 (* what the harness compares is the state: the table shown after a frame is the table *)
 Definition snapshot_is_table (g : gates) : Prop := forall c ops o,
   o_sessions (out_at_g g c ops o) = st_sessions (exec_g g c (ops ++ [o])).
